@@ -162,6 +162,8 @@ type parMonitor struct {
 	dcount             int64
 	sorted, sortedCopy []*genetics.Species
 	optsBefore         neat.Options
+	parents            []*genetics.Genome
+	parentSnaps        []*SnapGenome
 }
 
 func (m *parMonitor) record(kind int, species int) {
@@ -232,6 +234,11 @@ func (m *parMonitor) BeforeEpoch(c *Ctx, sc *EvoScenario, gen int, pop *genetics
 	m.storing = map[int]bool{}
 	m.mu.Unlock()
 	m.optsBefore = *sc.Opts
+	m.parents, m.parentSnaps = m.parents[:0], m.parentSnaps[:0]
+	for _, org := range pop.Organisms {
+		m.parents = append(m.parents, org.Genotype)
+		m.parentSnaps = append(m.parentSnaps, snapGenome(org.Genotype))
+	}
 	m.wf.BeforeEpoch(c, sc, gen, pop)
 	m.pop.BeforeEpoch(c, sc, gen, pop)
 	m.innov.BeforeEpoch(c, sc, gen, pop)
@@ -249,6 +256,20 @@ func (m *parMonitor) AfterEpoch(c *Ctx, sc *EvoScenario, gen int, pop *genetics.
 		c.Violate("shared-options-written", map[string]interface{}{"scenario": sc.brief(), "generation": gen, "before": optsBrief(&m.optsBefore), "after": optsBrief(sc.Opts)},
 			"the turnover wrote to the options object that all reproduction goroutines read concurrently (NewLinkTries %d -> %d, ...)", m.optsBefore.NewLinkTries, sc.Opts.NewLinkTries)
 		return false
+	}
+	// the genomes of the old generation are read by all reproduction goroutines (mating across species takes the champion of
+	// another species): whoever writes to one of them during the turnover races with those readers. The objects are still
+	// held here and are compared with their snapshots (id included).
+	for i, g := range m.parents {
+		after := snapGenome(g)
+		if d := diffGenomes(m.parentSnaps[i], after); d != "" || after.Id != m.parentSnaps[i].Id {
+			if d == "" {
+				d = fmt.Sprintf("genome id %d -> %d", m.parentSnaps[i].Id, after.Id)
+			}
+			c.Violate("shared-parent-written", map[string]interface{}{"scenario": sc.brief(), "generation": gen, "parent": m.parentSnaps[i]},
+				"the turnover wrote to a genome of the old generation, which the reproduction goroutines of all species may read: %s", d)
+			return false
+		}
 	}
 	// the monitors count their own "epochs" keys; they are part of the evidence of this property as well
 	c.distinctOff = true
